@@ -601,6 +601,9 @@ int sim_epoll_ctl(int epfd, int op, int fd, struct epoll_event *ev) {
   if (!e) return -1;
   VFd *t = W.get(fd);
   if (!t || !t->open) {
+    // removing the registration of a descriptor that was already closed is a no-op in the kernel (close removed it; EBADF):
+    // it is neither I/O, an option nor a close on the socket, so it is counted but not held against the call protocol
+    if (op == EPOLL_CTL_DEL && t) { W.bump("epoll_del_after_close"); return fail(C_EPOLL_CTL, fd, EBADF, op); }
     char b[128]; snprintf(b, sizeof b, "epoll_ctl op %d on %s descriptor %d", op, t ? "closed" : "never-opened", fd);
     W.protocol_violations.push_back(b);
     return fail(C_EPOLL_CTL, fd, EBADF, op);
@@ -682,6 +685,9 @@ int sim_poll(struct pollfd *p, nfds_t n, int timeout) {
   for (nfds_t i = 0; i < n; i++) {
     VFd *t = W.get(p[i].fd);
     if (p[i].fd >= 0 && (!t || !t->open)) {
+      // with the event thread, another thread may close a socket between the moment the event thread built its wait set and
+      // the wait call itself; naming it in a wait call is not I/O on it (POLLNVAL / EBADF) - counted, not a protocol breach
+      if (t && sched_active()) { W.bump("wait_call_names_closed_fd"); continue; }
       char b[128]; snprintf(b, sizeof b, "poll on %s descriptor %d", t ? "closed" : "never-opened", p[i].fd);
       W.protocol_violations.push_back(b);
     }
@@ -721,6 +727,7 @@ int sim_select(int nfds, fd_set *r, fd_set *w, fd_set *x, struct timeval *tv) {
     if ((r && FD_ISSET(fd, r)) || (w && FD_ISSET(fd, w)) || (x && FD_ISSET(fd, x))) {
       VFd *t = W.get(fd);
       if (!t || !t->open) {
+        if (t && sched_active()) { W.bump("wait_call_names_closed_fd"); return fail(C_SELECT, fd, EBADF); }
         char b[128]; snprintf(b, sizeof b, "select on %s descriptor %d", t ? "closed" : "never-opened", fd);
         W.protocol_violations.push_back(b);
         return fail(C_SELECT, fd, EBADF);
